@@ -119,6 +119,8 @@ class DDLParser(Parser, Dialects):
             self.lexer.sequence = True
         elif t.type == "CHECK":
             self.lexer.check = True
+            # the clause ends with the parenthesis that brings the nesting back to this depth
+            self.lexer.check_depth = self.lexer.lp_open
 
     def t_EQ(self, t: LexToken) -> LexToken:
         r"(=)+"
@@ -243,6 +245,9 @@ class DDLParser(Parser, Dialects):
                 self.lexer.lp_open -= 1
                 if not self.lexer.lp_open:
                     self.lexer.after_columns = True
+                if self.lexer.check and self.lexer.lp_open == self.lexer.check_depth:
+                    # end of the CHECK ( ... ) clause: '<' and '>' are type brackets again
+                    self.lexer.check = False
             self.lexer.last_par = t.type
 
     def set_lexx_tags(self, t: LexToken):
